@@ -335,7 +335,7 @@ def check(model, tier):
     processor_rules.r07_8_materialize_as(ctx)
     processor_rules.r07_11_operands_processed(ctx)
     payload.r10_3_evaluate_once(ctx)
-    optional_rules.r_optional_truthiness(ctx, "R07.9", None, ("_processor.py", "_marker_relation.py", "_relation.py", "iteration/"))
+    optional_rules.r_optional_truthiness(ctx, "R07.9", None, ("_processor.py", "_marker_relation.py", "_relation.py", "iteration/", "_operations/", "_unary_operation.py", "_binary_operation.py"))  # static emptiness (max_rows == 0) of every operation decides what the Processor prunes and transfers
     run.assume("the hooks implemented by the caller evaluate their source truthfully")
     from ..rules import mutation as _mutation
 
